@@ -15,6 +15,14 @@ class Infra(Exception):
     """Tool failure, timeout, dead driver: exit 2, never a violation."""
 
 
+class CodeCrash(Exception):
+    """A driver process died of a Go panic raised in a goroutine that was running code of the repository under test
+    (a /repo frame before any harness frame): an observation about the code, reported as a violation with the stack as replay."""
+    def __init__(self, stack):
+        Exception.__init__(self, stack[:300])
+        self.stack = stack
+
+
 class Ctx:
     def __init__(self, pid, tier):
         self.pid, self.tier = pid, tier
@@ -111,7 +119,7 @@ class Ctx:
             self.log("driver %s: %d data race report(s)" % (test, races))
             return r.stdout
         txt = r.stdout + r.stderr
-        if r.returncode != 0 and "\npanic: " in "\n" + txt and crash_reports is not None:
+        if r.returncode != 0 and "\npanic: " in "\n" + txt:
             # the driver process died of a Go panic: if the panicking goroutine was running code of the repository under
             # test (a frame under REPO before any frame of the harness), that is an observation about the code, not a dead driver
             i = txt.find("panic: ")
@@ -121,8 +129,10 @@ class Ctx:
             own = next((k for k, f in enumerate(frames) if f.startswith(REPO + "/") and "verif_driver_test.go" not in f), None)
             harness = next((k for k, f in enumerate(frames) if "harness-src" in f), None)
             if own is not None and (harness is None or own < harness):
-                crash_reports.append(stack)
                 self.log("driver %s: the code under test panicked" % test)
+                if crash_reports is None:
+                    raise CodeCrash(stack)          # main() turns it into a violation
+                crash_reports.append(stack)
                 return r.stdout
         if r.returncode != 0 or ("--- PASS: " + test) not in r.stdout:
             raise Infra("driver %s failed (exit %d):\n%s\n%s" % (test, r.returncode, r.stdout[-3000:], r.stderr[-3000:]))
